@@ -47,7 +47,7 @@ def _work(args):
 def run(tier, seed, replay=None):
     assert_repo_import()
     chk = Check("C01", tier, seed)
-    model_ok = chk.proof_stage(["Scope/ScanFile.vo"])
+    model_ok = chk.proof_stage(["Scope/ScanFile.vo", "Scope/SpecProofs.vo"])
     n_prog = 400 if tier == "quick" else 12000
     base = seed * 1000003
     jobs = []
